@@ -188,6 +188,30 @@ def run(ctx):
                line=(bad[1].lineno if bad else sts[0].lineno))
     ctx.floor('C05-R6', npairs, 12, 'mirrored lat/lon statement pairs')
 
+    # ---- R7: guarded divisions are guarded exactly on their denominator ------------------
+    ndiv = 0
+    for fi in m.functions.values():
+        for c in calls_in(fi.node):
+            if call_name(c) in ('np.divide', 'numpy.divide') and len(c.args) >= 2:
+                w = next((k.value for k in c.keywords if k.arg == 'where'), None)
+                if w is None:
+                    continue
+                ndiv += 1
+                den = norm(c.args[1])
+                wd = w
+                if isinstance(wd, ast.Name):
+                    d_ = single_def_value(fi.node, wd.id)
+                    wd = d_ if d_ is not None else wd
+                ok = isinstance(wd, ast.Compare) and len(wd.ops) == 1 and (
+                    (isinstance(wd.ops[0], ast.NotEq) and norm(wd.left) == den and norm(wd.comparators[0]) in ('0', '0.0')) or
+                    (isinstance(wd.ops[0], ast.Gt) and norm(wd.left) in (f'np.abs({den})', f'abs({den})') and norm(wd.comparators[0]) in ('0', '0.0')))
+                ctx.ob('C05-R7', fi, f'np.divide(…, {den}, where={norm(w)})', ok,
+                       'the division is skipped exactly where the denominator is zero' if ok else
+                       (f'the guard `{norm(wd)[:60]}` is not the exact test `{den} != 0`: with a tolerance, a segment whose '
+                        'coordinate difference is tiny but non-zero is treated as degenerate and its grid-line crossing is '
+                        'lost (NaN intersection, output arrays of different lengths)'), line=c.lineno)
+    ctx.floor('C05-R7', ndiv, 2, 'guarded divisions in grid.py')
+
     # ---- R3: suffix + axis agreement ------------------------------------------------------
     rule_suffix(ctx, m, rule='C05-R3')
     cs = m.func('Gridder._cell_idxs_and_variables_for_dateline_split_trajectory')
